@@ -243,6 +243,15 @@ impl MetadataClient for LocalMetadataClient {
         source_chunks: &[String],
         target_chunk: &str,
     ) -> Result<()> {
+        // Never drop the sources for a target the catalog does not know
+        // (same contract as the object-store backend).
+        if !self.chunks.contains_key(target_chunk) {
+            return Err(crate::Error::Metadata(format!(
+                "Compaction target chunk not found in catalog: {}",
+                target_chunk
+            )));
+        }
+
         // Determine the new level (max source level + 1)
         let new_level = source_chunks
             .iter()
